@@ -17,3 +17,15 @@ CLAIMS["C13"] = (
  "Trusted: frozen inverse table of library formatter/parser pairs and their maximum output widths; go/ssa. Time-format resolution loss and url.URL normal forms are not covered.",
  "static analysis: sibling cross-check of encoder/decoder call sequences after SSA inlining + constant propagation; constant-index coverage",
 )
+CLAIMS["C18"] = (
+ "other",
+ "Four structural necessary conditions of json.Equal being semantic equality: the type dispatch is exhaustive over jx.Type and mismatched types are unequal; in the number comparison no possibly-true result flows from a float64 comparison (floats only decide inequality; byte/zero/big.Rat comparisons decide equality); every constant-true return has consumed a value from both decoders (so composites containing null compare); the enum duplicate scan applies Equal to every pair of distinct members of one list and rejects on true. The equivalence-relation laws over all JSON texts (e.g. objects with duplicate keys) are not decided.",
+ "Trusted: jx.Decoder methods consume exactly one value; Num.Float64 rounding is monotone; go/ssa.",
+ "static analysis: SSA dataflow from comparison operators to return values, dominance of consuming calls, AST rule on the nested enum scan",
+)
+CLAIMS["C16"] = (
+ "other",
+ "Five narrow structural necessary conditions of RFC 6901 resolution: the tilde table is exactly {~1→/, ~0→~} applied simultaneously (or ~1 first) with a fast path guarded for every key; unescaping is applied to each '/'-split token and its result is what lookup receives; the '#' form is percent-decoded before splitting; member lookup is string equality returning the adjacent value and index lookup is base-10 unsigned; all compiler-unproven bounds checks of the package are discharged. Which node a (document, pointer) pair designates is a runtime-value relation and is not decided.",
+ "Trusted: yaml mapping nodes have even Content length (table entry); compiler check_bce; go/ssa.",
+ "static analysis: SSA value-flow between split, unescape and lookup; constant-table extraction; compiler-enumerated bounds obligations",
+)
